@@ -39,6 +39,8 @@ type (
 
 var (
 	// ErrMalformedPageToken is a client error: the token comes from the request.
-	ErrMalformedPageToken       = herodot.ErrBadRequest.WithError("malformed page token")
+	ErrMalformedPageToken = herodot.ErrBadRequest.WithError("malformed page token")
+	// ErrMalformedPageSize is a client error: the page size comes from the request.
+	ErrMalformedPageSize        = herodot.ErrBadRequest.WithError("page size must not be negative")
 	ErrNetworkMigrationsMissing = errors.New("networkx migrations are not yet applied")
 )
